@@ -325,8 +325,130 @@ fn one_zone(c: &mut Ctx, rt: &tokio::runtime::Runtime, fam: &str, idx: u64) {
     }
 }
 
+
+// ------------------------------------------------------------- zone sets ----
+
+/// A `ZoneTree` is looked up before any zone is: after any sequence of insertions and removals it
+/// holds exactly the zones that were inserted and not removed since, and `find_zone` gives the one
+/// whose apex is the longest suffix of the query name (in the query's class) - a function of the
+/// current set only.
+fn zone_set_case(c: &mut Ctx, fam: &str, idx: u64) {
+    use domain::zonetree::ZoneTree;
+    let mut rng = c.case_rng(fam, idx);
+    let labels: [&[u8]; 3] = [b"a", b"b", b"c"];
+    let mk = |rng: &mut Rng| -> Vec<u8> {
+        let depth = rng.below(5);
+        let mut n = Vec::new();
+        for _ in 0..depth {
+            let l = *rng.pick(&labels);
+            n.push(l.len() as u8);
+            n.extend_from_slice(l);
+        }
+        n.extend_from_slice(if rng.chance(1, 6) { b"\x00" } else { b"\x04test\x00" });
+        n
+    };
+    let classes = [Class::IN, Class::IN, Class::IN, Class::CH];
+    let mut tree = ZoneTree::new();
+    let mut model: BTreeSet<(u16, Vec<u8>)> = BTreeSet::new();
+    let mut trace: Vec<String> = Vec::new();
+    let nops = rng.range(4, 40);
+    for _ in 0..nops {
+        let apex = mk(&mut rng);
+        let class = *rng.pick(&classes);
+        let key = (class.to_int(), w::lower(&apex));
+        let nm = Name::from_octets(Bytes::from(apex.clone())).unwrap();
+        let insert = rng.chance(3, 5);
+        let ex = |trace: &Vec<String>| json!({"ops": trace});
+        let r = ctx::catch(|| {
+            if insert {
+                let z = ZoneBuilder::new(nm.clone(), class).build();
+                (true, tree.insert_zone(z).is_ok())
+            } else {
+                (false, tree.remove_zone(&nm, class).is_ok())
+            }
+        });
+        let (was_insert, ok) = match r {
+            Ok(x) => x,
+            Err(pi) => {
+                c.violation(&format!("panic:{}", pi.site()), &format!("panic in ZoneTree: {} at {}:{}", pi.msg, pi.file, pi.line), c.replay_of(fam, idx, ex(&trace)));
+                return;
+            }
+        };
+        trace.push(format!("{} {} {} -> {}", if was_insert { "insert" } else { "remove" }, w::name_text(&apex), class, if ok { "ok" } else { "err" }));
+        let present = model.contains(&key);
+        if was_insert {
+            if ok == present {
+                c.violation(if ok { "zone-set:insert:second-zone-for-an-apex-accepted" } else { "zone-set:insert:refused" }, &format!("inserting a zone for {} (present before: {}) returned {}", w::name_text(&apex), present, if ok { "Ok" } else { "Err" }), c.replay_of(fam, idx, ex(&trace)));
+                return;
+            }
+            model.insert(key.clone());
+        } else {
+            if present && !ok {
+                c.violation("zone-set:remove:refused", &format!("removing the zone {} that is in the tree failed", w::name_text(&apex)), c.replay_of(fam, idx, ex(&trace)));
+                return;
+            }
+            model.remove(&key);
+        }
+        // the tree against the model: every apex of the pool, queries at, below and beside them, the iterator
+        let listed: BTreeSet<(u16, Vec<u8>)> = tree.iter_zones().map(|z| (z.class().to_int(), w::lower(z.apex_name().as_slice()))).collect();
+        if listed != model {
+            let lost: Vec<String> = model.difference(&listed).map(|k| w::name_text(&k.1)).collect();
+            let extra: Vec<String> = listed.difference(&model).map(|k| w::name_text(&k.1)).collect();
+            let sig = if !was_insert && !lost.is_empty() { "zone-set:remove:other-zones-gone" } else if !lost.is_empty() { "zone-set:zones-lost" } else { "zone-set:zones-left-behind" };
+            c.violation(sig, &format!("after {:?} the tree lists other zones than were inserted and not removed: missing {:?}, unexpected {:?}", trace.last().unwrap(), lost, extra), c.replay_of(fam, idx, ex(&trace)));
+            return;
+        }
+        for _ in 0..12 {
+            let mut q = mk(&mut rng);
+            if rng.chance(1, 3) {
+                let mut p = vec![1, b'x'];
+                p.extend_from_slice(&q);
+                q = p;
+            }
+            if rng.chance(1, 4) {
+                for b in q.iter_mut() {
+                    if b.is_ascii_lowercase() && rng.bool() {
+                        *b = b.to_ascii_uppercase();
+                    }
+                }
+            }
+            let qc = *rng.pick(&classes);
+            let qn = Name::from_octets(Bytes::from(q.clone())).unwrap();
+            // the longest apex that is a suffix of the query name
+            let ql = w::lower(&q);
+            let want: Option<Vec<u8>> = model.iter().filter(|k| k.0 == qc.to_int() && is_at_or_below(&ql, &k.1)).map(|k| k.1.clone()).max_by_key(|a| a.len());
+            let got = tree.find_zone(&qn, qc).map(|z| w::lower(z.apex_name().as_slice()));
+            if got != want {
+                c.violation("zone-set:find_zone", &format!("find_zone({}, {}) gives {:?}, the zones in the tree make it {:?}", w::name_text(&q), qc, got.as_ref().map(|g| w::name_text(g)), want.as_ref().map(|g| w::name_text(g))), c.replay_of(fam, idx, ex(&trace)));
+                return;
+            }
+            let got_exact = tree.get_zone(&qn, qc).map(|z| w::lower(z.apex_name().as_slice()));
+            let want_exact = model.get(&(qc.to_int(), ql.clone())).map(|k| k.1.clone());
+            if got_exact != want_exact {
+                c.violation("zone-set:get_zone", &format!("get_zone({}) gives {:?}, expected {:?}", w::name_text(&q), got_exact.is_some(), want_exact.is_some()), c.replay_of(fam, idx, ex(&trace)));
+                return;
+            }
+            c.count("zone_set_lookups", 1);
+        }
+        if !was_insert && present && model.iter().any(|k| k.0 == key.0) {
+            c.count("zone_set_removals_with_relatives_left", 1);
+        }
+    }
+    c.count("zone_set_cases", 1);
+    c.eval(&("zone-set", model.len().min(8), nops / 8));
+}
+
 pub fn run(c: &mut Ctx) {
     let rt = tokio::runtime::Builder::new_current_thread().enable_all().build().expect("tokio runtime");
+    c.families(2);
+    let fam = "zone-set";
+    let total = c.total(20_000, 2_000_000);
+    for idx in c.cases(fam, total) {
+        if c.out_of_time() {
+            break;
+        }
+        zone_set_case(c, fam, idx);
+    }
     let fam = "zones";
     let total = c.total(1_500, 150_000);
     for idx in c.cases(fam, total) {
@@ -337,6 +459,8 @@ pub fn run(c: &mut Ctx) {
         one_zone(c, &rt, fam, idx);
     }
     if !c.replaying() {
+        c.floor("zone_set_lookups", 1000);
+        c.floor("zone_set_removals_with_relatives_left", 10);
         for k in ["data", "cname", "nodata", "nxdomain", "referral", "out-of-zone"] {
             c.floor(&format!("expected_{}", k), 10);
         }
